@@ -53,14 +53,18 @@ def kind(t):
         ("call%d" % (len(t) - 2) if len(t) - 2 < 2 else "call2+")
 
 def skeleton(t):
+    if t[0] in ("v", "i") and t[1][:1] in ("#", "$"):
+        return "rigid-primary" if t[1][0] == "#" else "flexible-primary"
     cs = children(t)
     return kind(t) + ("(" + ",".join(skeleton(c) for c in cs) + ")" if cs else "")
 
 def is_lit(t): return t[0] == "i"
 
 def wf(t):
+    """the model's `wf`: a literal (in the atoms stream: any rigid primary expression) is never called
+    directly — `7(x)`, `(a, b)(x)`, `if c { f } else { g }(x)` are lowering diagnostics by design"""
     k = t[0]
-    if k in ("c", "f", "p") and is_lit(t[1]):
+    if k == "c" and is_lit(t[1]):
         return False
     return all(wf(c) for c in children(t))
 
@@ -70,10 +74,100 @@ def subtrees(t):
         yield from subtrees(c)
 
 
+# ------------------------------------------------------------------ primary expressions of every form
+# placeholder → spelling (space separated tokens). `#…` = rigid (the model's `lit`: lowering refuses pending
+# postfix operations: "Cannot apply arguments to …"), `$…` = flexible (the model's `var`: identifier-like,
+# pending operations are simply applied: paths, constructor applications, parenthesised expressions)
+ATOM_SPELLINGS = {
+    "$id": "foo", "$path": "pkg :: item", "$ctorcall": "Foo ( 1 )", "$paren": "( a )",
+    "$parenclosure": "( | x | x )", "$parenif": "( if c { a } else { b } )", "$parentuple": "( ( a , b ) )",
+    "#int": "7", "#i64": "7i64", "#float": "1.5", "#f32": "2.5f32", "#str": "\"abc\"", "#true": "true",
+    "#unit": "( )", "#tuple": "( twice , thrice )", "#tuple1": "( a , )", "#array": "[ a , b ]",
+    "#struct": "Point { x : 1 , y : 2 }", "#structempty": "Unit { }",
+    "#if": "if c { a } else { b }", "#match": "match s { Foo ( q ) => q , _ => 0 }", "#while": "while c { a }",
+}
+ATOMS = {}   # placeholder → {"spelling", "dump"}; dumps are the real parse of the atom on its own
+
+def load_atoms(ctx):
+    f = os.path.join(ctx.run_dir, "c11.texts.atoms.tsv")
+    names = sorted(ATOM_SPELLINGS)
+    open(f, "w").write("".join(f"atom{i}\t{ATOM_SPELLINGS[n]}\n" for i, n in enumerate(names)))
+    ok, out = ctx.gv("c11", ["parse", "--file", f])
+    got = {}
+    if ok:
+        for r in vlib.read_tsv(os.path.join(ctx.run_dir, "c11.parsed.tsv")):
+            if len(r) >= 5 and r[1] == "PARSED" and r[2] == "canon":
+                got[r[0]] = r[3]
+    for i, n in enumerate(names):
+        d = got.get(f"atom{i}", "ERR:missing")
+        if d.startswith(("ERR:", "PANIC:")):
+            ctx.broken_ties.append(("atoms stream", f"the primary expression `{ATOM_SPELLINGS[n]}` does not parse on its own: {d}"))
+            continue
+        ATOMS[n] = {"spelling": ATOM_SPELLINGS[n], "dump": d}
+
+def subst_text(text):
+    if "#" not in text and "$" not in text:
+        return text
+    return " ".join(ATOMS[w]["spelling"] if w in ATOMS else w for w in text.split(" "))
+
+def subst_sexp(s):
+    if "#" not in s and "$" not in s:
+        return s
+    for n, a in ATOMS.items():
+        s = s.replace(("(i %s)" if n[0] == "#" else "(v %s)") % n, a["dump"])
+    return s
+
+BIN_SYM = {"or": "||", "and": "&&", "eq": "==", "ne": "!=", "lt": "<", "gt": ">", "le": "<=", "ge": ">=",
+           "add": "+", "sub": "-", "mul": "*", "div": "/"}
+
+def full_text(t):
+    """the tree with parentheses around every operand that is not a primary expression (made here,
+    independently of the model's printer)"""
+    def op(x):
+        return full_text(x) if x[0] in ("v", "i") else "( " + full_text(x) + " )"
+    k = t[0]
+    if k in ("v", "i"): return t[1]
+    if k == "u": return ("-" if t[1] == "neg" else "!") + " " + op(t[2])
+    if k == "b": return op(t[2]) + " " + BIN_SYM[t[1]] + " " + op(t[3])
+    if k == "c": return op(t[1]) + " (" + "".join(" " + full_text(a) + (" ," if i + 1 < len(t) - 2 else "") for i, a in enumerate(t[2:])) + " )"
+    if k == "f": return op(t[1]) + " . " + t[2]
+    return op(t[1]) + " . " + t[2]
+
+def atom_trees():
+    """every primary expression × every postfix chain of length 1..3 over {call(), call(k), .fld, .0}
+    × prefix operators {none, -, !, - !} × context {alone, left of +, right of *, call argument}"""
+    import itertools
+    links = ["call0", "call1", "field", "proj"]
+    def apply(t, l):
+        if l == "call0": return ["c", t]
+        if l == "call1": return ["c", t, ["v", "k"]]
+        if l == "field": return ["f", t, "fld"]
+        return ["p", t, "0"]
+    out = []
+    for name in sorted(ATOMS):
+        atom = ["i", name] if name[0] == "#" else ["v", name]
+        for n in (1, 2, 3):
+            for chain in itertools.product(links, repeat=n):
+                if name[0] == "#" and chain[0].startswith("call"):
+                    continue          # a rigid primary expression is not callable (by design, see wf)
+                t = atom
+                for l in chain:
+                    t = apply(t, l)
+                for pre in ((), ("neg",), ("not",), ("neg", "not")):
+                    u = t
+                    for o in reversed(pre):
+                        u = ["u", o, u]
+                    for ctxk in ("alone", "left", "right", "arg"):
+                        w = {"alone": u, "left": ["b", "add", u, ["v", "z"]], "right": ["b", "mul", ["v", "z"], u],
+                             "arg": ["c", ["v", "g"], u]}[ctxk]
+                        out.append((sx_text(w), name, "/".join(chain), "".join(p[0] for p in pre) or "-", ctxk))
+    return out
+
+
 class Round:
     """one batch: trees → model print (+ model parse) → real parse of three renderings"""
-    def __init__(self, ctx, tag):
-        self.ctx, self.tag = ctx, tag
+    def __init__(self, ctx, tag, with_full=False):
+        self.ctx, self.tag, self.with_full = ctx, tag, with_full
 
     def run(self, items):
         """items: list of (id, tree-sexp-text, given_text|None) → {id: dict}"""
@@ -89,10 +183,15 @@ class Round:
                 ctx.broken_ties.append(("model driver c11", f"{cid}: {m}"))
                 continue
             if given is None:
-                res[cid] = {"tree": tree, "text": m[0], "model": m[1], "wf": m[2] == "wf=true", "real": {}, "src": {}}
+                res[cid] = {"tree": tree, "text": m[0], "model": subst_sexp(m[1]), "wf": m[2] == "wf=true", "real": {}, "src": {}}
             else:
                 res[cid] = {"tree": tree, "text": given, "model": m[0], "wf": True, "real": {}, "src": {}}
-            texts.append(f"{cid}\t{res[cid]['text']}")
+            res[cid]["expect"] = subst_sexp(tree)
+            res[cid]["full"] = {}
+            texts.append(f"{cid}\t{subst_text(res[cid]['text'])}")
+            if given is None and self.with_full:
+                res[cid]["full_text"] = subst_text(full_text(sx_parse(tree)))
+                texts.append(f"{cid}.full\t{res[cid]['full_text']}")
         f = os.path.join(ctx.run_dir, f"c11.texts.{self.tag}.tsv")
         open(f, "w").write("\n".join(texts) + "\n")
         ok, out = ctx.gv("c11", ["parse", "--file", f])
@@ -101,6 +200,8 @@ class Round:
                 if len(r) >= 5 and r[1] == "PARSED" and r[0] in res:
                     res[r[0]]["real"][r[2]] = r[3]
                     res[r[0]]["src"][r[2]] = vlib.unesc(r[4])
+                elif len(r) >= 5 and r[1] == "PARSED" and r[0].endswith(".full") and r[0][:-5] in res:
+                    res[r[0][:-5]]["full"][r[2]] = r[3]
                 elif r[0] == "#TIGHT":
                     self.tight_note = r[1]
         return res
@@ -108,8 +209,8 @@ class Round:
 
 def shrink(ctx, tree, stream):
     """smallest failing relative of `tree`: a failing subtree, then operands replaced by variables"""
-    rnd = Round(ctx, "shrink")
-    fails = lambda r: any(v != r["tree"] for v in r["real"].values())
+    rnd = Round(ctx, "shrink", with_full=True)
+    fails = lambda r: any(v != r["expect"] for v in r["real"].values()) or any(v != r["expect"] for v in r["full"].values())
     cur = sx_parse(tree)
     for _ in range(6):
         cands, seen = [], set()
@@ -359,6 +460,8 @@ def run(ctx):
     cov = {}
 
     # ---------------------------------------------------------------- trees
+    load_atoms(ctx)
+    atom_info = {}
     if ctx.replay:
         import json
         rp = json.load(open(ctx.replay))
@@ -379,10 +482,16 @@ def run(ctx):
                 items.append((r[0], r[4], r[5] if len(r) > 5 else None))
                 streams[r[0]] = r[2]
                 kinds[r[0]] = r[3]
-    rnd = Round(ctx, "main")
+        for k, (tree, name, chain, pre, ctxk) in enumerate(atom_trees()):
+            cid = f"a{k}"
+            items.append((cid, tree, None))
+            streams[cid] = "atoms"
+            kinds[cid] = "atom" + name
+            atom_info[cid] = (name, chain, pre, ctxk)
+    rnd = Round(ctx, "main", with_full=True)
     res = rnd.run(items) if (items and have_model) else {}
 
-    n_eval = n_oracle_ok = n_tie_ok = n_model_thm_ok = 0
+    n_eval = n_oracle_ok = n_tie_ok = n_model_thm_ok = n_full = n_full_ok = 0
     by_stream, by_kind, distinct = {}, {}, set()
     samples, fail_groups = [], {}
     model_contradicts = []
@@ -398,10 +507,12 @@ def run(ctx):
             distinct.add(tree if given is None else tree + "|" + given)
         # the model-level statement of the theorem on this instance (must hold: parse_print is proved)
         if given is None and r["wf"]:
-            if r["model"] == tree:
+            if r["model"] == r["expect"]:
                 n_model_thm_ok += 1
             else:
                 model_contradicts.append((cid, tree, r["model"]))
+        if given is None and r["wf"] != wf(t):
+            ctx.broken_ties.append(("wf of the model ≠ wf of tools/props/c11.py", f"{cid} {tree}"))
         for variant, real in r["real"].items():
             n_eval += 1
             # (ii) tie: the model's parse of the same tokens equals the real parse (errors: both reject)
@@ -412,10 +523,21 @@ def run(ctx):
                 ctx.broken_ties.append(("model≠implementation (parse+lower)",
                                         f"{cid} [{variant}] text=`{r['text']}` real={real} model={r['model']}"))
             # (i) property oracle on the implementation's own output
-            if real == tree:
+            if real == r["expect"]:
                 n_oracle_ok += 1
-            elif r["wf"]:
+            elif wf(t):
                 fail_groups.setdefault(cid, []).append((variant, real))
+        # (iii) minimal parentheses vs. parentheses around every operand: the real parser + lowering must
+        # read both spellings as the same tree, and accept or reject both (independent of the model)
+        for variant, realf in r["full"].items():
+            n_eval += 1
+            n_full += 1
+            rc = r["real"].get(variant)
+            if realf == rc and (realf == r["expect"] or not wf(t)):
+                n_full_ok += 1
+            elif wf(t) or realf.startswith(("ERR:", "PANIC:")) != (rc or "").startswith(("ERR:", "PANIC:")):
+                fail_groups.setdefault(cid, []).append((variant + " vs full parentheses `" + r.get("full_text", "") + "`",
+                                                        f"{rc}  ≠(full)  {realf}"))
         want = {"triples": kinds[cid] == "prefix" and "(c " in tree, "random": size(t) >= 9, "parens": size(t) >= 5,
                 "pairs": kinds[cid] == "call1" and tree.startswith("(c (b")}.get(st, False)
         if want and not any(s_["stream"] == st for s_ in samples):
@@ -455,7 +577,8 @@ def run(ctx):
                     if streams[cid] != "parens" else
                     "redundant parentheses change the tree that is read")
             ctx.report(sig, what, {"id": cid, "tree": r["tree"], "given_text": r["text"] if streams[cid] == "parens" else None,
-                                   "printed": r["text"], "variant": variant, "observed_parse": real,
+                                   "printed": subst_text(r["text"]), "full_parentheses": r.get("full_text"),
+                                   "expected_tree": r["expect"], "variant": variant, "observed_parse": real,
                                    "model_parse": r["model"], "minimal_tree": sx_text(small),
                                    "source": r["src"].get(variant, "")})
     ctx.violations.sort(key=lambda v: len(v[2].get("tree", "")))
@@ -544,13 +667,15 @@ def run(ctx):
         "samples": samples + lit_samples,
         "streams": by_stream, "root_kinds": by_kind,
         "oracle_tree_roundtrips_ok": n_oracle_ok, "tie_model_equals_real": n_tie_ok,
+        "oracle_min_vs_full_parentheses": n_full, "oracle_min_vs_full_parentheses_ok": n_full_ok,
+        "primary_expression_atoms": {n: a["spelling"] for n, a in ATOMS.items()},
         "model_instances_of_parse_print": n_model_thm_ok,
         "literals": n_lit, "literal_values_ok": n_lit_ok, "literal_tie_ok": n_lit_tie, "literal_classes": lit_classes,
         "tight_rendering": getattr(rnd, "tight_note", ""),
         "u_escape_sweep": usw,
         "corpus_goldens": gold,
         "impl_oracle_failures": len(ctx.violations) + sum(h["count"] for h in ctx.known_hits),
-        "model_diffs": (n_eval - n_lit - usw.get("programs", 0) - n_tie_ok) + (n_str - n_lit_tie)
+        "model_diffs": (n_eval - n_full - n_lit - usw.get("programs", 0) - n_tie_ok) + (n_str - n_lit_tie)
                        + (usw.get("tie_total", 0) - usw.get("tie_ok", 0)),
     }
     cov.update(cov0)
